@@ -12,7 +12,7 @@ Require Import Fggs.Proofs.BigSum Fggs.Proofs.SP_trees Fggs.Proofs.SP_nonrec Fgg
                Fggs.Proofs.SP_examples
                Fggs.Proofs.Dual_ring Fggs.Proofs.Dual_leibniz Fggs.Proofs.Dual_trees Fggs.Proofs.Dual_J
                Fggs.Proofs.Dual_vjp Fggs.Proofs.Dual_encl Fggs.Proofs.Dual_examples
-               Fggs.Proofs.SP_main Fggs.Proofs.Dual_back Fggs.Proofs.Dual_nonrec Fggs.Proofs.Dual_check Fggs.Proofs.Dual_log.
+               Fggs.Proofs.SP_main Fggs.Proofs.Dual_back Fggs.Proofs.Dual_nonrec Fggs.Proofs.Dual_check Fggs.Proofs.Dual_log Fggs.Proofs.Dual_logblock.
 
 (** * 0. The oracle of the correspondence check is sound *)
 (** verdict 0 of [grad_check_real]: the grammar is well-formed and every observed gradient entry
@@ -303,7 +303,7 @@ Theorem C03_example_gradient :
 Proof. exact (conj grad_S_f12 backward_S_f). Qed.
 Print Assumptions C03_example_gradient.
 (** * 8. J_log (Log semiring, read through exp) *)
-(** FULL STATEMENT (tier B, open at the block level): for a division [dv] that is exact on
+(** The block-level statement (C03_log, proved at the end of this file): for a division [dv] that is exact on
     finite non-zero denominators, every cell (xi, yi) of every block (n, l) satisfies
       J_log_val (J_log_contribs G comp e wi) n l (xi ++ yi) = Some v   with
       v * F_n(xi) = J_val (J_contribs G comp e wi) n l (xi ++ yi) * x_l(yi)
@@ -355,3 +355,24 @@ Theorem C03_log_live_rule_example :
   end = true.
 Proof. exact log_live_rule_value. Qed.
 Print Assumptions C03_log_live_rule_example.
+
+(** C03_log (tier B, proved): the block (n, l) of J_log at every cell (xi, yi), for a total
+    environment E and a division that is exact on [ok] denominators: if every rule of n and
+    their total F_n have an [ok] (finite non-zero) sum-product at xi then the entry is a number v
+    with  v * F_n(xi) = J[(n, l)](xi, yi) * x_l(yi),  i.e.  J_log = diag(1/F x) J diag(x),  the
+    Jacobian of log F with respect to the log-values *)
+Theorem C03_log :
+  forall R (o : sr_ops R), sr_ring o ->
+  forall G, wf_grammar G = true ->
+  forall (E : env (R:=R)) (dv : R -> R -> option R) (ok : R -> Prop),
+    (forall a b, ok b -> exists c, dv a b = Some c /\ mul o c b = a) ->
+  forall comp wi n l xi yi,
+    NoDup comp -> In n comp -> In xi (all_assts (lshape G n)) -> In yi (all_assts (lshape G l)) ->
+    (forall r, In r (rules_of G n) -> ok (rule_val o G E r xi)) ->
+    ok (sumS o (rules_of G n) (fun r => rule_val o G E r xi)) ->
+    exists v,
+      J_log_val o (J_log_contribs o dv G comp (fun l => Some (E l)) wi) n l (xi ++ yi) = Some v
+      /\ mul o v (sumS o (rules_of G n) (fun r => rule_val o G E r xi))
+         = mul o (J_val o (J_contribs o G comp (fun l => Some (E l)) wi) n l (xi ++ yi)) (E l yi).
+Proof. exact (fun R o H G Hwf E dv ok Hdv => @J_log_block R o H G Hwf E dv ok Hdv). Qed.
+Print Assumptions C03_log.
